@@ -286,10 +286,12 @@ def regenerate():
 
 # ---------------------------------------------------------------- effect / dtype summary (C15, C16)
 ALLOC_CALLS = {'conv2d', 'conv_transpose2d', 'pad', 'cat', 'stack', 'zeros', 'new_zeros', 'zeros_like', 'ones', 'tensor', 'copy', 'array',
-               'repeat', 'avg_pool2d', 'interpolate', 'sqrt', 'outer', 'arange', 'contiguous', 'clone', 'index_select', 'reflect',
+               'repeat', 'avg_pool2d', 'interpolate', 'sqrt', 'outer', 'arange', 'clone', 'index_select', 'reflect',
                'atleast_2d', 'where', 'fmod', 'einsum', 'as_column_vector', 'asanyarray', 'flip', 'roll', 'mypad', 'afb1d', 'sfb1d',
-               'afb1d_atrous', 'colfilter', 'rowfilter', 'coldfilt', 'rowdfilt', 'colifilt', 'rowifilt', 'c2q', 'prep_filt', 'float', 'double'}
-VIEW_METHODS = {'view', 'reshape', 'transpose', 'permute', 'squeeze', 'unsqueeze', 'T', 'ravel', 'detach', 'narrow', 'expand', 't'}
+               'afb1d_atrous', 'colfilter', 'rowfilter', 'coldfilt', 'rowdfilt', 'colifilt', 'rowifilt', 'c2q', 'prep_filt'}
+# methods whose result MAY share storage with the receiver (contiguous() / float() / double() / to() return the receiver itself when nothing has to change)
+VIEW_METHODS = {'view', 'reshape', 'transpose', 'permute', 'squeeze', 'unsqueeze', 'T', 'ravel', 'detach', 'narrow', 'expand', 't',
+                'contiguous', 'float', 'double', 'to', 'type', 'flatten', 'view_as', 'expand_as', 'squeeze_', 'unbind', 'chunk', 'split'}
 GLOBAL_STATE_CALLS = {'get_default_dtype', 'set_default_dtype', 'is_grad_enabled', 'manual_seed', 'seed', 'rand', 'randn', 'random', 'time', 'getenv'}
 SELF_MUTATORS = {'to', 'float', 'double', 'half', 'bfloat16', 'cuda', 'cpu', 'type', 'register_buffer', 'register_parameter', 'load_state_dict',
                  'requires_grad_', 'train', 'eval', 'apply', 'add_module', 'zero_grad', '__setattr__', 'update'}
